@@ -193,9 +193,10 @@ class Ctx:
         v = PropertyViolation(sub_oracle, detail, key)
         # keep at most a handful per bucket
         n = sum(1 for f in self.failures if f["sub_oracle"] == sub_oracle)
+        same_key = any(f["key"] == v.key for f in self.failures)
         if v.key in self.known_keys:
             self.known_hit(v.key, detail)
-        elif n < 3:
+        elif n < 12 and not same_key:
             self.fail(v, recipe if recipe is not None else {"detail": detail})
         else:
             self.extra.setdefault("suppressed_repeats", Counter())[sub_oracle] += 1
@@ -666,6 +667,9 @@ def main(argv=None):
             print("VIOLATION property=%s replay=%s" % (prop, path))
             print("  sub_oracle=%s" % so)
             print("  detail=%s" % f_["detail"][:600].replace("\n", " | "))
+            keys = sorted({g["key"] for g in failures if g["sub_oracle"] == so})
+            if len(keys) > 1 or keys[0] != so:
+                print("  keys(%d)=%s" % (len(keys), ", ".join(keys[:8])))
         rc = 1
     print(
         "%s tier=%s seed=%d evaluations=%d distinct_nontrivial=%d violations=%d wall=%.1fs"
